@@ -885,7 +885,11 @@ fn round_starve(seed: u64, hb: &Heartbeat, tot: &Mutex<Tot>, prop: &str) {
     let mut r = Rng::new(seed);
     // current-thread: the caller is simply not polled until the thread is free again; two workers: the caller sits in the
     // busy worker's LIFO slot while the other worker's time driver fires its timer at the deadline
-    let rt = if r.chance(50) {
+    let ct = r.chance(50);
+    if std::env::var("RSV_DEBUG").is_ok() {
+        eprintln!("starve seed={seed} ct={ct}");
+    }
+    let rt = if ct {
         tokio::runtime::Builder::new_current_thread().enable_time().build().unwrap()
     } else {
         tokio::runtime::Builder::new_multi_thread().worker_threads(2).enable_time().build().unwrap()
@@ -913,7 +917,25 @@ fn round_starve(seed: u64, hb: &Heartbeat, tot: &Mutex<Tot>, prop: &str) {
         let (sh_a, h_a) = (sh.clone(), H::D(a.clone()));
         let (sh_b, h_b) = (sh.clone(), H::D(a.clone()));
         let (ta, tb);
-        if variant == 0 {
+        if !ct {
+            // two workers: the calling task hogs its own worker (a `join!` sibling blocks the thread) while the other worker
+            // runs the actor (reply after ~25 ms, well before the deadline) and the time driver (fires the deadline)
+            // B first makes the actor busy (spinning ~15 ms inside a handler) on one worker; A then runs on the other one.
+            tb = tokio::spawn(async move {
+                send_via(&sh_b, Ctx::Client(1), 0, &h_b, SendKind::Tell, MTy::U, Body { uid: uid(), flags: 0, steps: vec![Step::Busy(15_000)] }).await;
+            });
+            tokio::time::sleep(Duration::from_millis(3)).await;
+            ta = tokio::spawn(async move {
+                let t0 = Instant::now();
+                let ask = send_via(&sh_a, Ctx::Client(0), 0, &h_a, SendKind::AskTo(to_ms + 20), MTy::U, Body::plain(uid()));
+                let hog = async {
+                    tokio::time::sleep(Duration::from_millis(2)).await;
+                    std::thread::sleep(Duration::from_micros(block_us + 20_000));
+                };
+                let (res, _) = tokio::join!(ask, hog);
+                (res, t0.elapsed())
+            });
+        } else if variant == 0 {
             ta = tokio::spawn(async move {
                 let t0 = Instant::now();
                 let res = send_via(&sh_a, Ctx::Client(0), 0, &h_a, SendKind::AskTo(to_ms), MTy::U, Body::plain(uid())).await;
@@ -945,13 +967,17 @@ fn round_starve(seed: u64, hb: &Heartbeat, tot: &Mutex<Tot>, prop: &str) {
       }).await.unwrap()
     });
     let (res, el) = out;
+    if std::env::var("RSV_DEBUG").is_ok() {
+        eprintln!("starve seed={seed} variant={variant} to={to_ms} el={el:?} res={res:?}");
+    }
     let ids = sh.ids.lock().unwrap().clone();
     let log = sh.log.snapshot();
     for id in ids.iter() {
         reg_remove(*id);
     }
     // when was the outcome available? (wall microseconds since round start, same clock as the call's start stamp)
-    let start = log.iter().find_map(|e| match &e.k { K::CallStart { kind: OpKind::AskTo | OpKind::TellTo, .. } => Some(e.t), _ => None }).unwrap_or(0);
+    let (start, to_ms) = log.iter().find_map(|e| match &e.k { K::CallStart { kind: OpKind::AskTo | OpKind::TellTo, to, .. } => Some((e.t, *to)), _ => None }).unwrap_or((0, to_ms));
+    let variant = if !ct { 0 } else { variant };
     let outcome_at = log.iter().find_map(|e| match &e.k {
         K::HExit { .. } if variant == 0 => Some(e.t),
         K::HEnter { .. } if variant == 2 => Some(e.t),
